@@ -62,7 +62,7 @@ func (C18) Execute(sc *core.Scenario, keepLog bool) *core.Result {
 			{names: []string{"bob"}, pass: "pb", boxes: map[string][]int{"INBOX": nil}},
 		}
 		owner := map[int]int{} // marker -> user
-		failures := 0           // consecutive failed logins (server wide)
+		failures := 0          // consecutive failed logins (server wide)
 		login := func(s *world.Sess, ui int) bool {
 			r := s.Cmd("LOGIN %s %s", users[ui].names[0], users[ui].pass)
 			if r.OK() {
